@@ -146,16 +146,14 @@ Qed.
 
 Lemma clean_set : forall l pos, forallb clean_attr (set_tattrs pos l) = true.
 Proof.
-  induction l as [|a l IH]; intros pos; [reflexivity|]. unfold set_tattrs in *.
-  destruct l as [|b l'].
-  - cbn [lay map fst snd forallb]. rewrite clean_attr_tattr. reflexivity.
-  - rewrite lay_cons. cbn [map fst snd forallb]. rewrite clean_attr_tattr. apply IH.
+  induction l as [|[a w] l IH]; intros pos; [reflexivity|]. unfold set_tattrs in *.
+  cbn [lay map fst snd forallb]. rewrite clean_attr_tattr. apply IH.
 Qed.
 
 Lemma clean_parts : forall ps pos, forallb clean_attr (parts_tattrs pos ps) = true.
 Proof.
   induction ps as [|p ps IH]; intros pos; [reflexivity|]. cbn [parts_tattrs]. rewrite forallb_app, IH, andb_true_r.
-  destruct p as [k v|k v|l]; cbn [part_tattrs]; [reflexivity|reflexivity|apply clean_set].
+  destruct p as [k v|k v|lead l]; cbn [part_tattrs]; [reflexivity|reflexivity|apply clean_set].
 Qed.
 
 Lemma clean_elem_leaf pos e els :
